@@ -59,6 +59,8 @@ MUTATES_PARAM = {
     "prosemirror/model/replace.py::add_range": "target",
 }
 
+_PASS: dict = {}
+
 # Scratch structures private to one construction (no value object is reachable from them)
 SCRATCH_FUNCS = (
     "prosemirror/model/content.py::nfa",
@@ -288,6 +290,8 @@ def rule_rf_mutations(prog: Program, report: Report) -> None:
                     mp = MUTATES_PARAM.get(fn.key)
                     if mp == recv.id:
                         verdict = "declared mutates-param (call sites checked by RF-c)"
+                    elif fn.name.startswith("_") and not fn.name.startswith("__") and recv.id in fn.params() and recv.id not in ("self", "cls"):
+                        verdict = "private helper that fills its parameter (every call site is checked to pass a fresh container)"
                     else:
                         verdict = None
                         why = f"`{recv.id}` is a parameter: the caller's object is changed in place"
@@ -349,6 +353,30 @@ def rule_rf_mutations(prog: Program, report: Report) -> None:
                 if kind.startswith(".") and rt and all(t.startswith("prosemirror.") for t in rt):
                     continue
                 mut_params.setdefault(fn.key, set()).add(recv.id)
+    for k_, p_ in MUTATES_PARAM.items():
+        mut_params.setdefault(k_, set()).add(p_)
+
+    def _arg_for(callee: Func, c: ast.Call, pname: str) -> ast.AST | None:
+        ps = callee.params()
+        off = 1 if (ps and ps[0] in ("self", "cls") and isinstance(c.func, ast.Attribute)) else 0
+        idx = ps.index(pname) - off
+        return c.args[idx] if 0 <= idx < len(c.args) else next((k.value for k in c.keywords if k.arg == pname), None)
+
+    # pass-through: a function that hands its own parameter to a mutating function mutates that parameter
+    changed = True
+    while changed:
+        changed = False
+        for caller in prog.all_funcs():
+            for c in walk_own(caller.node):
+                if not isinstance(c, ast.Call):
+                    continue
+                for callee in cg.resolve_call(caller, c):
+                    for pname in list(mut_params.get(callee.key, ())):
+                        a = _arg_for(callee, c, pname)
+                        if isinstance(a, ast.Name) and a.id in caller.params() and a.id not in ("self", "cls") and not _local_defs(caller.node, a.id) and a.id not in mut_params.get(caller.key, set()):
+                            mut_params.setdefault(caller.key, set()).add(a.id)
+                            changed = True
+    _PASS["mut_params"] = mut_params
     for caller in prog.all_funcs():
         for c in walk_own(caller.node):
             if not isinstance(c, ast.Call):
@@ -363,7 +391,7 @@ def rule_rf_mutations(prog: Program, report: Report) -> None:
                     a = c.args[idx] if 0 <= idx < len(c.args) else next((k.value for k in c.keywords if k.arg == pname), None)
                     if a is None:
                         continue
-                    ok = isinstance(a, ast.Name) and fr.fresh_local(caller, a.id, site=c)
+                    ok = isinstance(a, ast.Name) and (fr.fresh_local(caller, a.id, site=c) or a.id in mut_params.get(caller.key, set()))
                     if ok:
                         report.ob("RF-mut", caller.key, f"`{src(c)[:60]}` hands a fresh container to {callee.qual} (which mutates `{pname}`)")
                     else:
@@ -378,7 +406,7 @@ def rule_rf_mutations(prog: Program, report: Report) -> None:
                 if isinstance(c, ast.Call) and isinstance(c.func, ast.Name) and c.func.id == callee.name and len(c.args) > idx:
                     ncalls += 1
                     a = c.args[idx]
-                    ok = isinstance(a, ast.Name) and (fr.fresh_local(fn, a.id) or (MUTATES_PARAM.get(fn.key) == a.id))
+                    ok = isinstance(a, ast.Name) and (fr.fresh_local(fn, a.id) or (MUTATES_PARAM.get(fn.key) == a.id) or a.id in mut_params.get(fn.key, set()))
                     if ok:
                         report.ob("RF-mut", fn.key, f"`{src(c)[:60]}` hands a fresh list to {callee.name}")
                     else:
